@@ -783,6 +783,26 @@ theorem idxExact_empty (n : Nat) (nl : List Nat) :
 theorem idxExact_insertT (T : Table) (vals : List Val) (h : IdxExact T) : IdxExact (insertT T vals) :=
   ⟨exactOn_insert vals h.1, exactOn_insert vals h.2⟩
 
+/-- `batch_insert` appends rows: the shape of the table after the fold -/
+theorem foldl_insertRow (rows : List (List Val)) (T : Table) :
+    (rows.foldl insertRow T).rows = T.rows ++ rows.map (fun v => { alive := true, vals := v }) ∧
+    (rows.foldl insertRow T).ncols = T.ncols ∧ (rows.foldl insertRow T).hashOn = T.hashOn ∧
+    (rows.foldl insertRow T).btreeOn = T.btreeOn ∧ (rows.foldl insertRow T).nullable = T.nullable := by
+  induction rows generalizing T with
+  | nil => simp
+  | cons v rest ih =>
+    have h := ih (insertRow T v)
+    simp only [List.foldl_cons, List.map_cons]
+    refine ⟨?_, h.2.1, h.2.2.1, h.2.2.2.1, h.2.2.2.2⟩
+    rw [h.1]
+    simp [insertRow]
+
+theorem idxExact_foldl_insertRow (rows : List (List Val)) (T : Table) (h : IdxExact T) :
+    IdxExact (rows.foldl insertRow T) := by
+  induction rows generalizing T with
+  | nil => exact h
+  | cons v rest ih => exact ih (insertRow T v) (idxExact_insertT T v h)
+
 theorem idxExact_updateT (T : Table) (i : Nat) (r : Row) (upd : List (Nat × Val)) (h : IdxExact T)
     (hr : T.rows[i]? = some r) (ha : r.alive = true) (hlen : r.vals.length = T.ncols)
     (hupd : ∀ p ∈ upd, p.1 < T.ncols) : IdxExact (updateT T i r upd) := by
